@@ -123,3 +123,38 @@ def order_of_environments(inp):
     d = oqupy.compute_dynamics(sys_, initial_state=rho0, process_tensor=[ptz2, ptz], progress_type='silent')
     diff_comm = float(np.abs(c.states - d.states).max())
     return {'violates': diff > 1e-8, 'max_difference_non_commuting': diff, 'max_difference_commuting_couplings': diff_comm}
+
+
+def set_after_get(inp):
+    """a rank-3 (delta) process tensor whose steps are read (contracted) and then replaced through set_mpo_tensor on the
+    SAME object must be contracted with the NEW tensors afterwards"""
+    import oqupy
+    from oqupy.process_tensor import SimpleProcessTensor
+    dt, n, d = 0.2, 4, 2
+    rng = np.random.default_rng(5)
+    sx, sz = oqupy.operators.sigma('x'), oqupy.operators.sigma('z')
+
+    def tensors(seed):
+        # pure-dephasing ancilla: U diagonal in the system basis -> rank-3 tensors t[b_in, b_out, s] (delta between in and out)
+        r = np.random.default_rng(seed)
+        return [r.normal(size=(1 if k == 0 else 3, 1 if k == n - 1 else 3, d * d)) + 1j * r.normal(size=(1 if k == 0 else 3, 1 if k == n - 1 else 3, d * d))
+                for k in range(n)]
+
+    def fill(pt, ts):
+        for k, t in enumerate(ts):
+            pt.set_mpo_tensor(k, t)
+        for k in range(n + 1):
+            pt.set_cap_tensor(k, np.array([1.0]) if k in (0, n) else np.ones(3))
+    rho0 = oqupy.operators.spin_dm('x+')
+    sys_ = oqupy.System(0.3 * sx)
+    A, B = tensors(1), tensors(2)
+    pt = SimpleProcessTensor(d, dt=dt)
+    fill(pt, A)
+    oqupy.compute_dynamics(sys_, initial_state=rho0, process_tensor=pt, progress_type='silent')      # every step is read
+    fill(pt, B)                                                                                      # ... and then replaced
+    got = oqupy.compute_dynamics(sys_, initial_state=rho0, process_tensor=pt, progress_type='silent').states
+    fresh = SimpleProcessTensor(d, dt=dt)
+    fill(fresh, B)
+    want = oqupy.compute_dynamics(sys_, initial_state=rho0, process_tensor=fresh, progress_type='silent').states
+    dev = float(np.abs(np.array(got) - np.array(want)).max())
+    return {'violates': dev > 1e-10, 'max_deviation_from_a_fresh_object_with_the_new_tensors': dev}
